@@ -709,7 +709,7 @@ def typed_universe(tier, seed):
     for val in vals:
       out.append(f'C05Typed(i={val})' if k == 'i' else f'C05Typed(i=3, {k}={val})')
   r = rng(seed, 'c05-typed')
-  n = 400 if tier == 'thorough' else 24
+  n = 150 if tier == 'thorough' else 24
   keys = list(TYPED_FIELD_VALUES)
   for _ in range(n):
     ks = r.sample(keys, r.randint(2, len(keys)))
@@ -762,7 +762,7 @@ def drv_typed_objects(tier, seed):
   rec = Recorder(
       'C05', 'schema-backed objects: JSON round trip keeps value, specs and behaviour',
       scope='C05Typed (14 typed fields): every field value one at a time + seeded combinations '
-            '(quick 24 / thorough 400) x 5 holders x forms obj/str x to_json flags '
+            '(quick 24 / thorough 150) x 5 holders x forms obj/str x to_json flags '
             '(hide_default_values, hide_frozen); partial objects with allow_partial; root_path; '
             'loading the same JSON object twice; 40 mutation probes applied in lockstep to '
             'original and restored object')
@@ -1101,7 +1101,7 @@ def spec_universe(tier, seed):
     out.append((EMPTY_SCHEMA, s))
   r = rng(seed, 'c05-specs')
   for wn, wf in SPEC_WRAPPERS:
-    pool = SPECS if tier == 'thorough' else r.sample(SPECS, 6) + [
+    pool = r.sample(SPECS, 50 if tier == 'thorough' else 6) + [
         x for x in SPECS if '/' in x[0]]
     for tag, s in pool:
       out.append((tag if '/' in tag else f'spec/{wn}', wf.format(s=s)))
@@ -1114,7 +1114,7 @@ def drv_specs(tier, seed):
       scope=f'{len(SPECS)} value specs covering every constructor argument of every spec class '
             '(default/no default/noneable/frozen/bounds/sizes/regex/transform/nested), '
             f'{len(KEY_SPECS)} key specs, {len(SCHEMAS)} schemas incl. class schemas, specs wrapped in '
-            'Field/Schema/List/Tuple/Dict/Union (quick: seeded 6 per wrapper, thorough: all); forms obj/str; '
+            'Field/Schema/List/Tuple/Dict/Union (quick: seeded 6 per wrapper, thorough: 50); forms obj/str; '
             'oracle: ==, type, repr, every public attribute, apply() on 58 probe values x allow_partial '
             'differential (original vs restored), is_compatible both ways')
   for label, src in spec_universe(tier, seed):
@@ -1222,7 +1222,7 @@ def geno_universe(tier, seed):
   for x in lvl1:
     for f in GENO_COMBINE:
       lvl2.append(f(x, r.choice(lvl1)))
-  n3 = 400 if tier == 'thorough' else 8
+  n3 = 60 if tier == 'thorough' else 8
   lvl3 = []
   for _ in range(n3):
     lvl3.append(r.choice(GENO_COMBINE)(r.choice(lvl2), r.choice(lvl1 + lvl2)))
@@ -1283,13 +1283,13 @@ def drv_geno_dna(tier, seed):
   rec = Recorder(
       'C05', 'pg.geno search-space specs, hyper values and DNA: JSON round trip',
       scope='19 decision points (every argument of floatv/oneof/manyof/custom) x 5 combinators to depth 3 '
-            '(quick: 9 depth-2 + 8 depth-3 seeded; thorough: all depth-2 + 400 depth-3) + specs from '
+            '(quick: 9 depth-2 + 8 depth-3 seeded; thorough: all depth-2 + 60 depth-3) + specs from '
             'pg.dna_spec(hyper values); hyper values; DNA: 35 hand-made shapes (leaf types, special floats, '
             'marker-like strings, nesting, root/child metadata, cloneable keys) + first-N/random DNAs of '
             'each spec; forms obj/str, compact and compact=False')
   r = rng(seed, 'c05-dna')
   specs = geno_universe(tier, seed)
-  ndna = 8 if tier == 'thorough' else 2
+  ndna = 3 if tier == 'thorough' else 2
   for n, (label, src) in enumerate(specs):
     spec_ok = True
     for form in ('obj', 'str'):
@@ -1301,7 +1301,7 @@ def drv_geno_dna(tier, seed):
                  'observations differ: ' + repr({k: (a[k], b[k]) for k in a if a[k] != b[k]}),
                  f'{_header(src)}v = {src}\nr = pg.from_json_str(pg.to_json_str(v))\n'
                  f'from {_MOD} import _spec_observations as o\nassert o(v) == o(r), (o(v), o(r))\n')
-    if not spec_ok or (tier != 'thorough' and n % 3):
+    if not spec_ok or n % (2 if tier == 'thorough' else 3):
       continue
     spec = ev(src)
     spec2 = pg.from_json_str(pg.to_json_str(spec))
@@ -1359,6 +1359,7 @@ def drv_geno_dna(tier, seed):
 # File systems: read-your-writes over histories (reference model: a dict).
 # -----------------------------------------------------------------------------
 
+_RUN_IDS = itertools.count(1)
 _UTF8 = (locale.getpreferredencoding(False) or '').lower().replace('-', '') == 'utf8'
 
 _TEXTS = ["''", "'x'", (r"'hello world\nétc  \x00\x0b'" if _UTF8 else r"'hello world\n etc\x00\x0b'"),
@@ -1581,10 +1582,11 @@ def drv_file_systems(tier, seed):
   td = tempfile.mkdtemp(prefix='c05fs')
   r = rng(seed, 'c05-fs')
   counter = [0]
+  _RUN = next(_RUN_IDS)     # /mem/ is process-global state: never reuse a path.
 
   def new_hist(fs, layer, set_name, pathlike=False):
     counter[0] += 1
-    u = f'c{counter[0]}'
+    u = f'c{_RUN}x{counter[0]}'
     exprs, paths = _path_sets(fs, td, u)[set_name]
     return _FsHistory(fs, layer, set_name, exprs, paths, pathlike)
 
@@ -1617,7 +1619,7 @@ def drv_file_systems(tier, seed):
           hist.cleanup()
       # changing between text and bytes content on the same path.
       counter[0] += 1
-      exprs, paths = _path_sets(fs, td, f'c{counter[0]}')['plain']
+      exprs, paths = _path_sets(fs, td, f'c{_RUN}x{counter[0]}')['plain']
       pe, p = exprs[0], paths[0]
       head = 'import os, tempfile\nimport pyglove as pg\ntd = tempfile.mkdtemp()\n'
       for first, second, cls in (
@@ -1788,9 +1790,11 @@ def drv_sequences(tier, seed):
   r = rng(seed, 'c05-seq')
   cnt = [0]
 
+  _RUN = next(_RUN_IDS)     # /mem/ and *.mem are process-global state.
+
   def paths_for(kind):
     cnt[0] += 1
-    u = f'c{cnt[0]}'
+    u = f'c{_RUN}x{cnt[0]}'
     if kind == 'mem-sequence':
       rel = [f'/{u}/s.mem', f'/{u}/s2.mem@3']
       return [f'td + {p!r}' for p in rel], [td + p for p in rel]
@@ -1895,14 +1899,14 @@ def _mutable_ids(v, acc=None):
 
 def _flags(v):
   out = []
-  for n in sym_nodes(v):
-    out.append((type(n).__name__, str(n.sym_path), n.allow_partial,
+  for i, n in enumerate(sym_nodes(v)):
+    out.append((type(n).__name__, i, n.allow_partial,
                 getattr(n, 'accessor_writable', None)))
   return out
 
 
 def _sealed(v):
-  return [(type(n).__name__, str(n.sym_path), n.sym_sealed) for n in sym_nodes(v)]
+  return [(type(n).__name__, i, n.sym_sealed) for i, n in enumerate(sym_nodes(v))]
 
 
 def copy_check(src, method):
